@@ -4,7 +4,8 @@
    is tied to the code by the correspondence check harness/c07.py. *)
 From Coq Require Import List NArith ZArith Arith Bool.
 From AHK Require Import Lib.ByteStr Model.Http Model.HttpWire Proofs.HttpStep Proofs.HttpFeed
-  Proofs.HttpCorrect Proofs.HttpInv Model.HttpSecure Proofs.HttpSecure.
+  Proofs.HttpCorrect Proofs.HttpInv Model.HttpSecure Proofs.HttpSecure
+  Model.ChaChaPoly Proofs.FrameReal Proofs.HttpSecureReal.
 From AHK Require Model.Frame.
 Import ListNotations.
 
@@ -194,6 +195,119 @@ Example c07_secure_nonvacuous :
   = ((Frame.Live [] 11%N, hinit), map interp ws).
 Proof. cbv zeta. repeat split; vm_compute; reflexivity. Qed.
 
+(* ------------------------------------------------------------------------------
+   Round 9: the encrypted session AT THE REAL CIPHER.  cp_aead (Proofs/FrameReal.v) is the
+   bit-exact RFC 8439 ChaCha20-Poly1305 of Model/ChaChaPoly.v; cp_aead_ok discharges the
+   hypothesis [aead_ok A 16] of the three theorems above, so the statements below make NO
+   assumption about the cipher and speak about the actual bytes on the wire
+   (Proofs/HttpSecureReal.v; tied to the code by the vm_compute stream `realparse`).
+   ------------------------------------------------------------------------------ *)
+
+(* what the accessory's byte stream is: per block LE16(len) ++ ChaCha20 ++ Poly1305 tag *)
+Theorem real_seal_stream_bytes : forall key ctr p r,
+    Frame.seal_stream cp_aead key ctr (p :: r)
+    = Frame.len16 p ++ cp_seal key (Frame.nonce_of ctr) (Frame.len16 p) p
+      ++ Frame.seal_stream cp_aead key (ctr + 1)%N r.
+Proof. exact real_seal_stream_cons. Qed.
+
+Theorem real_secure_is_plain_parse : forall key ps ctr segs p raw,
+    Forall (fun b => (N.of_nat (length b) < 65536)%N) ps ->
+    (ctr + N.of_nat (length ps) <= Frame.ctr_limit)%N ->
+    concat segs = Frame.seal_stream cp_aead key ctr ps ->
+    secure_feeds (cp_open key) (Frame.Live [] ctr, Run p raw) segs
+    = ((norm (Frame.Live [] (ctr + N.of_nat (length ps))%N) (fst (hfeed (Run p raw) (concat ps))),
+        fst (hfeed (Run p raw) (concat ps))),
+       snd (hfeed (Run p raw) (concat ps))).
+Proof. exact real_secure_plain_lem. Qed.
+
+Theorem real_secure_is_plain_parse_partial : forall key ps ctr segs tail p raw,
+    Forall (fun b => (N.of_nat (length b) < 65536)%N) ps ->
+    (ctr + N.of_nat (length ps) <= Frame.ctr_limit)%N ->
+    Frame.ip_step (cp_open key) tail (ctr + N.of_nat (length ps))%N = Frame.NeedMore ->
+    concat segs = Frame.seal_stream cp_aead key ctr ps ++ tail ->
+    secure_feeds (cp_open key) (Frame.Live [] ctr, Run p raw) segs
+    = ((norm (Frame.Live tail (ctr + N.of_nat (length ps))%N) (fst (hfeed (Run p raw) (concat ps))),
+        fst (hfeed (Run p raw) (concat ps))),
+       snd (hfeed (Run p raw) (concat ps))).
+Proof. exact real_secure_plain_partial_lem. Qed.
+
+(* end to end, unconditional: well-formed messages, cut into blocks in ANY way, each block
+   sealed with ChaCha20-Poly1305 under the session key and the nonce of its position, the
+   ciphertext cut into reads in ANY way: exactly these messages *)
+Theorem real_secure_correct : forall key ws ps ctr segs,
+    forallb wf_wire ws = true ->
+    concat ps = concat (map render ws) ->
+    Forall (fun b => (N.of_nat (length b) < 65536)%N) ps ->
+    (ctr + N.of_nat (length ps) <= Frame.ctr_limit)%N ->
+    concat segs = Frame.seal_stream cp_aead key ctr ps ->
+    secure_feeds (cp_open key) (sinit ctr) segs
+    = ((Frame.Live [] (ctr + N.of_nat (length ps))%N, hinit), map interp ws).
+Proof. exact real_secure_correct_lem. Qed.
+
+(* the converse direction ("exactly the messages that were sent" - nothing else), with NO
+   hypothesis on the received bytes: whatever reads arrive on a fresh session, the
+   delivered messages and the parser state are the plain parse of plaintexts [outs] such
+   that the received stream begins with frames that are, byte for byte, the RFC 8439
+   seals of these plaintexts at nonces ctr, ctr+1, ... (FrameReal.real_frames); the rest
+   is still buffered, or the session is dead *)
+Theorem real_secure_sound : forall key ctr segs s' ms,
+    secure_feeds (cp_open key) (sinit ctr) segs = (s', ms) ->
+    exists frs rem outs,
+      concat segs = Frame.flat frs ++ rem /\
+      real_frames key ctr frs outs /\
+      ms = snd (hfeed hinit (concat outs)) /\
+      snd s' = fst (hfeed hinit (concat outs)) /\
+      (fst s' = Frame.Live rem (ctr + N.of_nat (length outs))%N \/ fst s' = Frame.Dead).
+Proof. exact real_secure_sound_lem. Qed.
+
+(* a block that is not the seal of any plaintext at its position ends the session after
+   exactly the messages of the authentic blocks before it, however the bytes are read *)
+Theorem real_secure_forged_block : forall key ps ctr hdr ct d segs,
+    Forall (fun p => (N.of_nat (length p) < 65536)%N) ps ->
+    (ctr + N.of_nat (length ps) <= Frame.ctr_limit)%N ->
+    length hdr = 2 -> length ct = N.to_nat (le_dec hdr) + 16 ->
+    (forall p, ct <> cp_seal key (Frame.nonce_of (ctr + N.of_nat (length ps))%N) hdr p) ->
+    concat segs = Frame.seal_stream cp_aead key ctr ps ++ hdr ++ ct ++ d ->
+    secure_feeds (cp_open key) (sinit ctr) segs
+    = ((Frame.Dead, fst (hfeed hinit (concat ps))), snd (hfeed hinit (concat ps))).
+Proof. exact real_secure_forged_lem. Qed.
+
+Theorem real_secure_forged_block_wf : forall key ws ps ctr hdr ct d segs,
+    forallb wf_wire ws = true ->
+    concat ps = concat (map render ws) ->
+    Forall (fun p => (N.of_nat (length p) < 65536)%N) ps ->
+    (ctr + N.of_nat (length ps) <= Frame.ctr_limit)%N ->
+    length hdr = 2 -> length ct = N.to_nat (le_dec hdr) + 16 ->
+    (forall p, ct <> cp_seal key (Frame.nonce_of (ctr + N.of_nat (length ps))%N) hdr p) ->
+    concat segs = Frame.seal_stream cp_aead key ctr ps ++ hdr ++ ct ++ d ->
+    secure_feeds (cp_open key) (sinit ctr) segs = ((Frame.Dead, hinit), map interp ws).
+Proof. exact real_secure_forged_wf_lem. Qed.
+
+(* non-vacuity at the real cipher: key 64..95, counter 255; a 204 and a fixed-length EVENT
+   in blocks of 26 (ends between CR and LF), 1 and 44 bytes = 125 bytes of ciphertext,
+   read as 1+10+30+20+64 bytes: the first three reads deliver nothing, all five deliver
+   both messages; the same messages in blocks 27+44 with the LAST tag byte flipped, read
+   as 50+57: session dead after the first message; the right bytes at the wrong counter
+   (254): nothing *)
+Definition flip_last (b : bytes) : bytes :=
+  firstn (length b - 1) b ++ map (fun x => N.lxor x 1) (skipn (length b - 1) b).
+Example c07_real_nonvacuous :
+  let key := map N.of_nat (seq 64 32) in
+  let ws := [ mkW [72;84;84;80;47;49;46;49]%N [50;48;52]%N [78;111;32;67;111;110;116;101;110;116]%N [] FNone;
+              mkW [69;86;69;78;84;47;49;46;48]%N [50;48;48]%N [79;75]%N [([99;111;110;116;101;110;116;45;108;101;110;103;116;104]%N, [32;53]%N)] (FFixed [104;101;108;108;111]%N) ] in
+  let ps := split_at [26; 1] (concat (map render ws)) in
+  let ct := Frame.seal_stream cp_aead key 255 ps in
+  let segs := split_at [1; 10; 30; 20] ct in
+  let ps2 := split_at [27] (concat (map render ws)) in
+  let ct2 := Frame.seal_stream cp_aead key 255 ps2 in
+  forallb wf_wire ws = true /\ concat ps = concat (map render ws) /\
+  map (@length N) ps = [26; 1; 44] /\ length ct = 125 /\ firstn 2 ct = [26; 0]%N /\
+  snd (secure_feeds (cp_open key) (sinit 255) (firstn 3 segs)) = [] /\
+  secure_feeds (cp_open key) (sinit 255) segs = ((Frame.Live [] 258%N, hinit), map interp ws) /\
+  secure_feeds (cp_open key) (sinit 255) (split_at [50] (flip_last ct2)) = ((Frame.Dead, hinit), firstn 1 (map interp ws)) /\
+  snd (secure_feeds (cp_open key) (sinit 254) segs) = [].
+Proof. cbv zeta. repeat match goal with |- _ /\ _ => split end; vm_compute; reflexivity. Qed.
+
 Print Assumptions hfeed_app.
 Print Assumptions hfeed_app_total.
 Print Assumptions hfeed_segmentations.
@@ -209,3 +323,10 @@ Print Assumptions secure_segmentations.
 Print Assumptions secure_is_plain_parse.
 Print Assumptions secure_is_plain_parse_partial.
 Print Assumptions secure_correct.
+Print Assumptions real_seal_stream_bytes.
+Print Assumptions real_secure_is_plain_parse.
+Print Assumptions real_secure_is_plain_parse_partial.
+Print Assumptions real_secure_correct.
+Print Assumptions real_secure_sound.
+Print Assumptions real_secure_forged_block.
+Print Assumptions real_secure_forged_block_wf.
